@@ -114,11 +114,20 @@ class StubRule(rule.Rule):
         return core.f_of(self.nv > 0) if not isinstance(self.nv, int) else self.nv > 0
 
 
+_TEMPLATE = {}
+
+
 def make_rule_list(rules, oFile):
     """a real rule_list object around stub rules (constructor bypassed: it would load the ~1000 shipped rules)"""
     from vsg import rule_list
 
     rl = rule_list.rule_list.__new__(rule_list.rule_list)
+    # start from the attributes the real constructor sets (built once per process), then swap the ~1000 shipped rules for the stubs
+    if "tmpl" not in _TEMPLATE:
+        _TEMPLATE["tmpl"] = dict(vars(rule_list.rule_list(StubFile(), severity.create_list({}))))
+    for k, v in _TEMPLATE["tmpl"].items():
+        if k != "rules":
+            rl.__dict__[k] = list(v) if isinstance(v, list) else (dict(v) if isinstance(v, dict) else v)
     rl.rules = list(rules)
     rl.iNumberRulesRan = 0
     rl.lastPhaseRan = 0
